@@ -120,6 +120,8 @@ def _plan(draw):
         # can hold missing values must still report those cells missing
         kw["raw_nan"] = draw(st.sampled_from(["str", "object"]))
         kw.pop("dtypes", None)
+    if fmt == "json" and n >= 2 and draw(st.booleans()):
+        kw["shuffled"] = True
     if fmt in ("geojson", "lod_json") and n >= 2 and draw(st.integers(0, 2)) == 0:
         # files not written by the library itself: the first feature(s) / item(s) lack some of the properties / keys
         # (every property still occurs in the last feature, so that naming it stays meaningful)
@@ -187,6 +189,13 @@ def _write(plan, ctx):
     elif fmt == "json":
         path = ctx.path("t.json")
         data.write_json(path, encoding=enc)
+        if kw.get("shuffled"):
+            # a file from elsewhere: the same objects, every other one with its keys in reverse order
+            with open(path, encoding=enc) as f:
+                objs = json.load(f)
+            objs = [dict(reversed(list(o.items()))) if j % 2 else o for j, o in enumerate(objs)]
+            with open(path, "w", encoding=enc) as f:
+                json.dump(objs, f, ensure_ascii=False)
     elif fmt == "parquet":
         path = ctx.path("t.parquet")
         data.write_parquet(path)
